@@ -173,8 +173,28 @@ pub fn run_case(sink: &mut Sink, header: &str, cfg: engine::Cfg, mut next: impl 
     }
 }
 
+/// A logger at the most verbose level that formats every record and throws it away: the crate's `debug!` / `info!`
+/// calls evaluate their arguments only when a logger asks for that level, and an argument can call back into the cache
+/// (take a lock, index a map). An application that turns logging on runs that code; so does every mode of the harness.
+struct EveryRecord;
+impl log::Log for EveryRecord {
+    fn enabled(&self, _: &log::Metadata) -> bool { true }
+    fn log(&self, record: &log::Record) {
+        use std::fmt::Write;
+        struct Discard;
+        impl Write for Discard { fn write_str(&mut self, _: &str) -> std::fmt::Result { Ok(()) } }
+        let _ = write!(Discard, "{}", record.args());
+    }
+    fn flush(&self) {}
+}
+static EVERY_RECORD: EveryRecord = EveryRecord;
+
 fn main() {
     let args: Vec<String> = std::env::args().collect();
+    if std::env::var("CACHED_VERIF_NO_LOGGER").is_err() {
+        let _ = log::set_logger(&EVERY_RECORD);
+        log::set_max_level(log::LevelFilter::Trace);
+    }
     std::panic::set_hook(Box::new(|info| {
         let thread = std::thread::current().name().unwrap_or("?").to_string();
         let message = if let Some(message) = info.payload().downcast_ref::<&str>() { message.to_string() }
